@@ -83,4 +83,9 @@ def cases(rng, tier, stats):
         out.append(prog_case("list-history", prog, nontrivial=interior, info={"ops": len(prog)}))
     stats["histories"] = n
     stats["operations"] = hist
+    # concatenation is a pure operation on sequences: `x = x + e` never changes what other references to the old list see
+    from props.C06 import self_concat_family
+    sc = self_concat_family(rng)
+    out += sc
+    stats["self_concat_family"] = len(sc)
     return out
